@@ -33,5 +33,5 @@ def main(target, seed, workers):
         return selftest_det.main(seed, workers)
     if target == 'selftest-sensitivity':
         from . import selftest_sens
-        return selftest_sens.main(seed, workers)
+        return selftest_sens.main(seed, workers, os.environ.get('VERIF_CANARY'))
     raise HarnessError('unknown selftest %r' % target)
